@@ -1498,6 +1498,7 @@ impl Translator {
                 let SolvedType::Function(args, _) = self.get_ty(mono, func_node).unwrap() else {
                     unreachable!()
                 };
+                let nfields = args.len();
                 for arg_ty in args {
                     match arg_ty {
                         SolvedType::Void => {}
@@ -1508,11 +1509,11 @@ impl Translator {
                         }
                     }
                 }
-                if nargs > 1 {
+                // A variant declared with several fields carries them as a tuple (patterns
+                // deconstruct it as one), even when void fields leave fewer than two slots.
+                if nfields > 1 {
                     self.emit(st, Instr::ConstructStruct(nargs));
-                }
-
-                if nargs == 0 {
+                } else if nargs == 0 {
                     self.emit(st, Instr::PushNil(1)); // TODO: optimize this away
                 }
 
